@@ -240,9 +240,20 @@ class Rdataset(dns.set.Set):
             self.clear()
         super().add(rd)
 
+    def _merge_ttl(self, was_empty: bool, ttl: int) -> None:
+        # TTL minimization for rdatas merged from another rdataset.  It is applied
+        # after the merge so that a refused merge (IncompatibleTypes,
+        # DifferingCovers) leaves the TTL untouched.
+        if was_empty:
+            self.ttl = dns.ttl.make(ttl)
+        else:
+            self.update_ttl(ttl)
+
     def union_update(self, other):
-        self.update_ttl(other.ttl)
+        ttl = other.ttl
+        was_empty = len(self) == 0
         super().union_update(other)
+        self._merge_ttl(was_empty, ttl)
 
     def intersection_update(self, other):
         self.update_ttl(other.ttl)
@@ -255,8 +266,10 @@ class Rdataset(dns.set.Set):
         :type other: :py:class:`dns.rdataset.Rdataset`
         """
 
-        self.update_ttl(other.ttl)
+        ttl = other.ttl
+        was_empty = len(self) == 0
         super().update(other)
+        self._merge_ttl(was_empty, ttl)
 
     def _rdata_repr(self):
         def maybe_truncate(s):
